@@ -13,6 +13,7 @@ import (
 	"fmt"
 	"go/ast"
 	"go/token"
+	"regexp"
 	"sort"
 	"strings"
 )
@@ -123,6 +124,12 @@ type psAmb struct {
 	check            func(p *psPkgs) bool
 }
 
+// like: text equals the pattern, where `§` stands for any identifier (locals may be renamed).
+func like(text, pattern string) bool {
+	re := regexp.MustCompile("^" + strings.ReplaceAll(regexp.QuoteMeta(pattern), "§", `[A-Za-z_][A-Za-z0-9_]*`) + "$")
+	return re.MatchString(text)
+}
+
 func srcHas(file string, needles ...string) func(p *psPkgs) bool {
 	return func(p *psPkgs) bool {
 		f, ok := p.files[file]
@@ -147,7 +154,8 @@ func srcHas(file string, needles ...string) func(p *psPkgs) bool {
 				s = "go " + psExpr(x.Call)
 			}
 			for _, nd := range needles {
-				if s == nd {
+				// a needle is the statement's text with `§` standing for any identifier (locals may be renamed)
+				if like(s, nd) {
 					found[nd] = true
 				}
 			}
@@ -158,36 +166,36 @@ func srcHas(file string, needles ...string) func(p *psPkgs) bool {
 }
 
 var psAmbient = []psAmb{
-	{"Serf_handleUserEvent", "len_s_eventBuffer", "0 < len_s_eventBuffer", "config: Config.EventBuffer > 0 (Create: serf.eventBuffer = make([]*userEvents, conf.EventBuffer); never re-assigned)",
-		srcHas("serf/serf.go", "serf.eventBuffer = make([]*userEvents, conf.EventBuffer)")},
-	{"Serf_handleQuery", "len_s_queryBuffer", "0 < len_s_queryBuffer", "config: Config.QueryBuffer > 0 (Create: serf.queryBuffer = make([]*queries, conf.QueryBuffer); never re-assigned)",
-		srcHas("serf/serf.go", "serf.queryBuffer = make([]*queries, conf.QueryBuffer)")},
-	{"delegate_NodeMeta", "v_limit", "len_roleBytes_v1 ≤ v_limit", "config: the local tags fit memberlist's meta limit (Create and SetTags reject larger tags; not a network input)",
-		srcHas("serf/serf.go", "if len(serf.encodeTags(conf.Tags)) > memberlist.MetaMaxSize", "if len(s.encodeTags(tags)) > memberlist.MetaMaxSize")},
-	{"serfQueries_handleQuery", "len_q_Name", "v_InternalQueryPrefix ≤ len_q_Name ∧ v_InternalQueryPrefix = len_InternalQueryPrefix",
+	{"Serf_handleUserEvent", "len_recv_eventBuffer", "0 < len_recv_eventBuffer", "config: Config.EventBuffer > 0 (Create: serf.eventBuffer = make([]*userEvents, conf.EventBuffer); never re-assigned)",
+		srcHas("serf/serf.go", "§.eventBuffer = make([]*userEvents, §.EventBuffer)")},
+	{"Serf_handleQuery", "len_recv_queryBuffer", "0 < len_recv_queryBuffer", "config: Config.QueryBuffer > 0 (Create: serf.queryBuffer = make([]*queries, conf.QueryBuffer); never re-assigned)",
+		srcHas("serf/serf.go", "§.queryBuffer = make([]*queries, §.QueryBuffer)")},
+	{"delegate_NodeMeta", "v_a0", "len_x0_v1 ≤ v_a0", "config: the local tags fit memberlist's meta limit (Create and SetTags reject larger tags; not a network input)",
+		srcHas("serf/serf.go", "if len(§.encodeTags(§.Tags)) > memberlist.MetaMaxSize", "if len(§.encodeTags(§)) > memberlist.MetaMaxSize")},
+	{"serfQueries_handleQuery", "len_a0_Name", "v_InternalQueryPrefix ≤ len_a0_Name ∧ v_InternalQueryPrefix = len_InternalQueryPrefix",
 		"caller: serfQueries.stream starts handleQuery only under strings.HasPrefix(q.Name, InternalQueryPrefix)",
-		srcHas("serf/internal_query.go", "if ok && strings.HasPrefix(q.Name, InternalQueryPrefix)", "go s.handleQuery(q)")},
-	{"pingDelegate_NotifyPingComplete", "ptr_p_serf_coordCache", "0 < ptr_p_serf_coordCache", "config: the ping delegate exists only when coordinates are enabled, and Create then makes coordCache",
-		srcHas("serf/serf.go", "serf.coordCache = make(map[string]*coordinate.Coordinate)", "conf.MemberlistConfig.Ping = &pingDelegate{…}")},
+		srcHas("serf/internal_query.go", "if § && strings.HasPrefix(§.Name, InternalQueryPrefix)", "go §.handleQuery(§)")},
+	{"pingDelegate_NotifyPingComplete", "ptr_recv_serf_coordCache", "0 < ptr_recv_serf_coordCache", "config: the ping delegate exists only when coordinates are enabled, and Create then makes coordCache",
+		srcHas("serf/serf.go", "§.coordCache = make(map[string]*coordinate.Coordinate)", "§.MemberlistConfig.Ping = &pingDelegate{…}")},
 	{"Serf_encodeTags", "ptr_err_v1", "ptr_err_v1 = 0", "library: msgpack-encoding a map[string]string into a bytes.Buffer does not fail", nil},
-	{"pingDelegate_NotifyPingComplete", "v_p_serf_coordClient_config_LatencyFilterSize", "0 < v_p_serf_coordClient_config_LatencyFilterSize",
+	{"pingDelegate_NotifyPingComplete", "v_recv_serf_coordClient_config_LatencyFilterSize", "0 < v_recv_serf_coordClient_config_LatencyFilterSize",
 		"config: coordinate.Config.LatencyFilterSize > 0 (Create builds the client from coordinate.DefaultConfig(), which sets LatencyFilterSize: 3)",
 		func(p *psPkgs) bool {
-			return srcHas("serf/serf.go", "coordinateConfig = coordinate.DefaultConfig()")(p) && srcHas("coordinate/config.go", "LatencyFilterSize: 3")(p)
+			return srcHas("serf/serf.go", "§ = coordinate.DefaultConfig()")(p) && srcHas("coordinate/config.go", "LatencyFilterSize: 3")(p)
 		}},
-	{"delegate_MergeRemoteState", "v_dyn_d_serf_eventJoinIgnore_Load_is_bool", "v_dyn_d_serf_eventJoinIgnore_Load_is_bool = 1",
+	{"delegate_MergeRemoteState", "v_dyn_recv_serf_eventJoinIgnore_Load_is_bool", "v_dyn_recv_serf_eventJoinIgnore_Load_is_bool = 1",
 		"inv: every eventJoinIgnore.Store(…) in the package stores a bool literal, and Create stores one before the delegate is handed to memberlist", storesBool},
-	{"userEventCoalescer_Handle", "v_dyn_e_is_UserEvent", "v_e_EventType = " + "EVENTUSER" + " → v_dyn_e_is_UserEvent = 1",
+	{"userEventCoalescer_Handle", "v_dyn_a0_is_UserEvent", "v_a0_EventType = " + "EVENTUSER" + " → v_dyn_a0_is_UserEvent = 1",
 		"inv: UserEvent is the only type in the package whose EventType() returns EventUser", onlyUserEventIsEventUser},
-	{"userEventCoalescer_Coalesce", "v_dyn_e_is_UserEvent", "v_dyn_e_is_UserEvent = 1",
+	{"userEventCoalescer_Coalesce", "v_dyn_a0_is_UserEvent", "v_dyn_a0_is_UserEvent = 1",
 		"caller: coalesceLoop calls Coalesce(e) only after Handle(e) returned true, and userEventCoalescer.Handle returns true only after its own e.(UserEvent) succeeded",
 		func(p *psPkgs) bool { return coalesceAfterHandle(p) && handleTrueOnlyAfterAssert(p) }},
-	{"memberEventCoalescer_Coalesce", "v_dyn_raw_is_MemberEvent", "v_dyn_raw_is_MemberEvent = 1",
+	{"memberEventCoalescer_Coalesce", "v_dyn_a0_is_MemberEvent", "v_dyn_a0_is_MemberEvent = 1",
 		"caller: coalesceLoop calls Coalesce(e) only after Handle(e) returned true; memberEventCoalescer.Handle returns true only for the EventMember* kinds, which only MemberEvent values carry (UserEvent and *Query return the constants EventUser/EventQuery)",
 		func(p *psPkgs) bool {
 			return coalesceAfterHandle(p) && memberHandleOnlyMemberKinds(p) && onlyUserEventIsEventUser(p)
 		}},
-	{"QueryResponse_sendAck", "ptr_r_ackCh", "0 < ptr_r_ackCh → 0 < ptr_r_acks", "inv: newQueryResponse makes ackCh and acks together (if q.Ack()); a send on a nil channel is never selected",
+	{"QueryResponse_sendAck", "ptr_recv_ackCh", "0 < ptr_recv_ackCh → 0 < ptr_recv_acks", "inv: newQueryResponse makes ackCh and acks together (if q.Ack()); a send on a nil channel is never selected",
 		func(p *psPkgs) bool { return ackPairShape(p) }},
 }
 
@@ -253,12 +261,12 @@ func coalesceAfterHandle(p *psPkgs) bool {
 		}
 		guarded := false
 		for _, s := range cc.Body {
-			if ifs, is := s.(*ast.IfStmt); is && psExpr(ifs.Cond) == "!c.Handle(e)" && len(ifs.Body.List) > 0 {
+			if ifs, is := s.(*ast.IfStmt); is && like(psExpr(ifs.Cond), "!§.Handle(§)") && len(ifs.Body.List) > 0 {
 				if b, is := ifs.Body.List[len(ifs.Body.List)-1].(*ast.BranchStmt); is && b.Tok == token.CONTINUE {
 					guarded = true
 				}
 			}
-			if es, is := s.(*ast.ExprStmt); is && psExpr(es.X) == "c.Coalesce(e)" {
+			if es, is := s.(*ast.ExprStmt); is && like(psExpr(es.X), "§.Coalesce(§)") {
 				ok = guarded
 			}
 		}
@@ -289,11 +297,11 @@ func handleTrueOnlyAfterAssert(p *psPkgs) bool {
 		return false
 	}
 	as, ok := fd.Body.List[1].(*ast.AssignStmt)
-	if !ok || len(as.Rhs) != 1 || psExpr(as.Rhs[0]) != "e.(UserEvent)" {
+	if !ok || len(as.Rhs) != 1 || !like(psExpr(as.Rhs[0]), "§.(UserEvent)") {
 		return false
 	}
 	ifs, ok := fd.Body.List[0].(*ast.IfStmt)
-	return ok && psExpr(ifs.Cond) == "e.EventType() != EventUser"
+	return ok && like(psExpr(ifs.Cond), "§.EventType() != EventUser")
 }
 
 // memberHandleOnlyMemberKinds: every `return true` of memberEventCoalescer.Handle sits in a case clause that lists only EventMember* constants.
@@ -303,7 +311,7 @@ func memberHandleOnlyMemberKinds(p *psPkgs) bool {
 		return false
 	}
 	sw, ok := fd.Body.List[0].(*ast.SwitchStmt)
-	if !ok || psExpr(sw.Tag) != "e.EventType()" {
+	if !ok || !like(psExpr(sw.Tag), "§.EventType()") {
 		return false
 	}
 	for _, cl := range sw.Body.List {
@@ -365,10 +373,10 @@ func ackPairShape(p *psPkgs) bool {
 		a, b := false, false
 		for _, s := range ifs.Body.List {
 			if as, is := s.(*ast.AssignStmt); is && len(as.Lhs) == 1 && len(as.Rhs) == 1 && isMakeOrLit(as.Rhs[0]) {
-				switch psExpr(as.Lhs[0]) {
-				case "resp.ackCh":
+				switch l := psExpr(as.Lhs[0]); {
+				case like(l, "§.ackCh"):
 					a = true
-				case "resp.acks":
+				case like(l, "§.acks"):
 					b = true
 				}
 			}
@@ -444,7 +452,8 @@ func (w *psWalker) truncLoop(x *ast.ForStmt, loopVar, initV string) {
 		return
 	}
 	w.emit("loopinv_init", k, "for "+loopVar+" := …; "+loopVar+"-- { "+k+" = "+k+"[0:"+loopVar+"] }", initV+" ≤ "+w.lv("len", k))
-	w.sh.sites = append(w.sh.sites, psSite{name: "site_" + w.short + "_loopinv_step_" + strings.Trim(psSan.ReplaceAllString(k, "_"), "_"), kind: "loopinv_step",
+	w.sh.names["site_"+w.short+"_loopinv_step"]++
+	w.sh.sites = append(w.sh.sites, psSite{name: fmt.Sprintf("site_%s_loopinv_step_%d", w.short, w.sh.names["site_"+w.short+"_loopinv_step"]), kind: "loopinv_step",
 		src: "one iteration keeps " + loopVar + " ≤ len(" + k + "): " + k + " is left alone or truncated to " + loopVar + ", then " + loopVar + "--", fn: w.short,
 		hyps: []psHyp{{prop: "v_i ≤ len_K", tag: "guard"}, {prop: "0 < v_i", tag: "guard"}}, goal: "v_i - 1 ≤ v_i ∧ v_i - 1 ≤ len_K"})
 	w.invK, w.invVar = k, loopVar
@@ -467,7 +476,7 @@ func genPanicSites(repo string) (string, error) {
 		// MemberStatus.String panics on values it does not list: its precondition is the disjunction of its cases
 		var alts []string
 		for _, v := range statusValues(p) {
-			alts = append(alts, "{v:s} = "+v)
+			alts = append(alts, "{v:$r} = "+v)
 		}
 		psContracts["serf.MemberStatus.String"] = psContract{requires: strings.Join(alts, " ∨ ")}
 	}
@@ -488,23 +497,31 @@ func genPanicSites(repo string) (string, error) {
 		}
 		sh.opq = 0 // opaque names are local to a function: an edit elsewhere does not rename them
 		t := struct{ pkg, name string }{strings.SplitN(k, ".", 2)[0], k[strings.LastIndex(k, ".")+1:]}
-		w := &psWalker{sh: sh, pkg: t.pkg, short: psShortKey(k), fd: fd, types: map[string]psType{}, ver: map[string]int{}, next: map[string]int{}, nilable: map[string]bool{}, derefDone: map[string]psDeref{}, used: map[string]bool{}}
+		w := &psWalker{sh: sh, pkg: t.pkg, short: psShortKey(k), fd: fd, types: map[string]psType{}, ver: map[string]int{}, next: map[string]int{}, nilable: map[string]bool{}, derefDone: map[string]psDeref{}, used: map[string]bool{}, indexLike: map[string]bool{}}
+		w.canon = map[string]string{}
 		if fd.Recv != nil {
 			for _, fl := range fd.Recv.List {
 				for _, n := range fl.Names {
 					w.types[n.Name] = psType{fl.Type, t.pkg}
+					w.canon[n.Name] = "recv"
 				}
 			}
 		}
+		np := 0
 		for _, fl := range fd.Type.Params.List {
 			for _, n := range fl.Names {
 				w.types[n.Name] = psType{fl.Type, t.pkg}
+				w.canon[n.Name] = fmt.Sprintf("a%d", np)
+				np++
 			}
 		}
 		if fd.Type.Results != nil {
+			nr := 0
 			for _, fl := range fd.Type.Results.List {
 				for _, n := range fl.Names {
 					w.types[n.Name] = psType{fl.Type, t.pkg}
+					w.canon[n.Name] = fmt.Sprintf("r%d", nr)
+					nr++
 				}
 			}
 		}
